@@ -325,7 +325,7 @@ func runTime(c TimeCase) kit.Result {
 var timeSpec = kit.Spec[TimeCase]{
 	Prop: "C18", Name: "mtime",
 	Rule: "mtime drawn from second classes (0, +-1, year 1, year 9999, 2^31, 2^32, +-2^55, random) x nanosecond classes (0, 1, 999999999, random) x time zone x node type, set through FSNode.SetModTime (optionally after another value / then cleared) or through the *PBDataWithStat producers; non-trivial = set with nanoseconds != 0",
-	Quick: 6000, Thorough: 40000,
+	Quick: 40000, Thorough: 200000,
 	Gen: genTime, Run: runTime,
 }
 
@@ -454,7 +454,7 @@ func runSize(c SizeCase) kit.Result {
 var sizeSpec = kit.Spec[SizeCase]{
 	Prop: "C18", Name: "sizes",
 	Rule: "file (inline data + 0..8 child block sizes, some removed again, data optionally replaced), raw and symlink nodes with generated content; FileSize() before/after serialization and DataSize() on the FSNode encoding and on the FilePBData/WrapData/SymlinkData encodings must equal the content length; non-trivial = content length > 0",
-	Quick: 3000, Thorough: 20000,
+	Quick: 15000, Thorough: 60000,
 	Gen: genSize, Run: runSize,
 	Sample: func(c SizeCase) any {
 		return map[string]any{"kind": c.Kind, "data_len": len(c.Data), "blocks": c.Blocks, "remove": c.Remove, "replace": c.Replace}
